@@ -1000,28 +1000,35 @@ impl LsmCommitEnv {
 	}
 
 	fn apply_to_memtable(&self, batch: &Batch) -> Result<()> {
-		// Try to add to current memtable
-		let result = self.add_to_active_memtable(batch);
+		// `apply` runs outside the commit lock: other committers fill the same
+		// memtables. A single retry after one rotation is not enough - the fresh
+		// memtable can be full again by the time this batch comes back to it (or
+		// the rotation was skipped because another committer had just rotated).
+		// The batch is in the commit log already, so giving up would refuse a
+		// transaction that conflicts with nobody and still replay it on recovery.
+		// Every batch that gets here fits an empty memtable (checked before it was
+		// logged), so rotating until it is in terminates.
+		const MAX_ROTATIONS: usize = 64;
+		let mut rotations = 0;
+		loop {
+			match self.add_to_active_memtable(batch) {
+				Ok(()) => return Ok(()),
+				Err(Error::ArenaFull) if rotations < MAX_ROTATIONS => {
+					rotations += 1;
+					// Arena is full - rotate memtable and retry
+					log::debug!("apply: arena full, rotating memtable");
+					#[cfg(feature = "verif")]
+					crate::verif::point("apply.arena_full");
 
-		match result {
-			Ok(()) => Ok(()),
-			Err(Error::ArenaFull) => {
-				// Arena is full - rotate memtable and retry
-				log::debug!("apply: arena full, rotating memtable");
-				#[cfg(feature = "verif")]
-				crate::verif::point("apply.arena_full");
+					self.core.rotate_memtable()?;
 
-				self.core.rotate_memtable()?;
-
-				// Schedule background flush
-				if let Some(ref task_manager) = self.task_manager {
-					task_manager.wake_up_memtable();
+					// Schedule background flush
+					if let Some(ref task_manager) = self.task_manager {
+						task_manager.wake_up_memtable();
+					}
 				}
-
-				// Retry on new memtable - must succeed
-				self.add_to_active_memtable(batch)
+				Err(e) => return Err(e),
 			}
-			Err(e) => Err(e),
 		}
 	}
 }
